@@ -58,6 +58,11 @@ class _Handler(object):
         return func(*args, **kwargs)
 
 
+def short_session(s):
+    """The small number a session id stands for in the observations."""
+    return s >> 56 if isinstance(s, int) and s >= (1 << 56) else s
+
+
 class Server(object):
     """Shared state of the fake ensemble."""
 
@@ -72,7 +77,10 @@ class Server(object):
 
     # -- sessions ---------------------------------------------------------------------------
     def new_session(self):
-        s = self.next_session
+        # session ids as an ensemble hands them out: 64-bit, the member's id in the top byte, the low half shared by
+        # sessions opened in the same instant on different members - only the WHOLE id tells two sessions apart
+        # (`short_session` is what the engine shows the model)
+        s = (self.next_session << 56) | 0x017a5b3c0004
         self.next_session += 1
         self.live.add(s)
         return s
